@@ -333,7 +333,7 @@ func bulkSpec(name string, kind int, hint int, seed uint64, n int, depth int) *S
 		}
 		switch kind {
 		case 0:
-			m = mapAdapter{xsync.NewMap(opts...)}
+			m = mapAdapter{m: xsync.NewMap(opts...)}
 		case 1:
 			id := func(x int) int { return x }
 			m = mapOfAdapter[int, int]{m: xsync.NewMapOf[int, int](opts...), toK: id, fromK: id, toV: id, fromV: id}
